@@ -866,6 +866,38 @@ pub fn run(ctx: &mut Ctx) {
     m.ctx.sample("F7: ordered pairs of instructions (all unprefixed non-terminators + 14 CB kinds; quick: every 5th second instruction, thorough: all ~66 000 pairs) followed by JP, 4 flag states, pointers in work RAM");
   }
 
+  // ---- F8: control-flow instructions cut by the end of ROM: the opcode is the last (or the
+  // last but one) byte of the switchable bank, the operand bytes lie in video RAM
+  {
+    let ops: [(u8, usize); 15] = [
+      (0x18, 2), (0x20, 2), (0x28, 2), (0x30, 2), (0x38, 2), (0xc3, 3), (0xc2, 3), (0xca, 3), (0xd2, 3), (0xda, 3), (0xcd, 3), (0xc4, 3), (0xcc, 3), (0xd4, 3), (0xdc, 3),
+    ];
+    for (oi, &(op, len)) in ops.iter().enumerate() {
+      if let Some(u) = my_unit!() {
+        let mut n = 0;
+        let mut rng = Rng::from(&[seed, 0xf8, op as u64]);
+        for back in 1..len {
+          let at = 0x8000u16 - back as u16;
+          for _ in 0..12 {
+            let operand = [rng.edgy_u8(), rng.u8() & 0x7f];
+            let mut block = vec![op];
+            block.extend_from_slice(&operand[..len - 1]);
+            if m.prepare(at, &block) {
+              for &fl in [0x00u32, 0xf0, 0x50, 0xa0].iter() {
+                let r = [0x9a00 | fl, 0xc210, 0xc228, 0xc230, 0xdfe0, at as u32, 0];
+                m.run_named(&r, &format!("{}@end-of-rom", opname(&block)), &block, &[u, op as u64, at as u64, 0]);
+                n += 1;
+              }
+            }
+          }
+        }
+        m.ctx.distinct_key(hash_words(&[118, oi as u64]));
+        m.ctx.count("cases:F8-cut-by-end-of-rom", n);
+      }
+    }
+    m.ctx.sample("F8: JR/JP/CALL (conditional and not) with the opcode at 0x7FFE/0x7FFF of the switchable bank and the operand bytes in video RAM");
+  }
+
   // ---- F6: random straight-line blocks of 1..64 instructions
   let nblocks: u64 = if sample_mode { 300 } else if thorough { 60_000 } else { 4_000 };
   let units = 64u64;
